@@ -260,6 +260,10 @@ func runRT(cfg vsched.Config, sc *RTScn, twice bool) *RTResult {
 			spec.Timestamps = true
 		case "duplicate-synack":
 			spec.LateCopyMs = 15
+		case "slow-synack":
+			// the target's SYN-ACK for the traced connection takes a while: SYN-ACKs answering the request's own end-to-end
+			// SYN probes (other local ports, no SACK-permitted) are captured first
+			spec.DelayNs = 30_000_000
 		case "no-handshake":
 			spec.Enabled = false
 		case "closed":
